@@ -5,6 +5,40 @@
 // into an ordered list of file-system events that concern one directory (the
 // "root") plus one marker file, and provides an in-memory file system on
 // which any prefix of those events can be replayed.
+//
+// # Ordering
+//
+// Events are ordered by the line on which the syscall completed: for an
+// `<unfinished ...>` / `<... x resumed>` pair that is the resumed line.
+// strace stops a thread at syscall exit until the line is printed, so if B
+// was started after A returned (in any thread), A is always before B. Two
+// syscalls that overlap in time have no defined order in the trace; in
+// particular two overlapping appends to the same file through different
+// open file descriptions can be replayed in the wrong order.
+//
+// # File descriptors
+//
+// The parser keeps a table of the fds that openat returned for root files
+// (O_APPEND or not, file position, current name of the object: it follows
+// renames and notices unlinks). The -y annotation of every call is checked
+// against that table; a disagreement, or a write on an fd that was not
+// opened in the trace, gives an Unsupported event instead of a guess.
+//
+// # Limitations
+//
+//   - The trace set contains no clone/fork/execve, so all tids are treated
+//     as threads of ONE process with one fd table.
+//   - lseek and read are not traced: the position of a non-O_APPEND fd is
+//     derived from the writes alone (it starts at 0 and advances by each
+//     write(2)). A program that seeks, or reads through an O_RDWR fd and
+//     then writes through it, is replayed wrongly without any warning.
+//   - mmap stores, writev/pwritev, fallocate, link, symlink, dup*, io_uring
+//     are not in the trace set and therefore invisible.
+//   - utimensat is parsed and ignored (time stamps are not modelled).
+//   - root and marker must be canonical paths (no symlinks), because -y
+//     prints what /proc/<pid>/fd shows.
+//   - Only direct children of root are modelled. Files in sub-directories
+//     are ignored; mkdir/rmdir of a direct child is Unsupported.
 package fstrace
 
 import (
